@@ -83,12 +83,20 @@ def tables():
         DirectedEdge: {"v1side": "", "v2side": ">"},
         UnDirectedEdge: {"v1side": "", "v2side": ""},
     }
+    t8 = {
+        # titles that do not tell vertices apart, and nothing else shown: several members render to the very same
+        # declaration text - each of them is still declared (once)
+        Vertex: {"type": "object", "show_attrs": ["grp"], "title_format": "g{grp}"},
+        zoo.VSub: {"type": "object", "show_attrs": ["grp"], "title_format": "same"},
+        DirectedEdge: {"v1side": "", "v2side": ">"},
+        UnDirectedEdge: {"v1side": "", "v2side": ""},
+    }
     return {"default": t0, "overrides": t1, "grandparents": t2, "userfunc": t3, "otherlinks": t4, "multi": t5, "idattr": t6,
-            "fmtspec": t7}
+            "fmtspec": t7, "sametitle": t8}
 
 
 TABLE_ALLOWS_OTHER = {"default": False, "overrides": False, "grandparents": True, "userfunc": False, "otherlinks": True,
-                      "multi": False, "incremental": False, "idattr": False, "fmtspec": False}
+                      "multi": False, "incremental": False, "idattr": False, "fmtspec": False, "sametitle": False}
 
 
 def nearest(cls, table):
@@ -105,7 +113,7 @@ def title(v, table):
     if o["title_format"] == "$id":
         return hex(id(v))
     return o["title_format"].format(idx=v.idx, uid=v.uid, id=getattr(v, "id", None), type=getattr(v, "type", None),
-                                    pos=getattr(v, "pos", None), w=getattr(v, "w", None))
+                                    pos=getattr(v, "pos", None), w=getattr(v, "w", None), grp=getattr(v, "grp", None))
 
 
 def floors(ctx):
@@ -115,7 +123,8 @@ def floors(ctx):
             "links_leaving_universe": 50, "empty_universe": 3, "isolated_members": 100,
             "subclass_resolved_via_ancestor": 100, "multiple_inheritance_members": 50,
             "renders_after_table_was_extended": 100, "renders_with_format_specs_in_title": 100,
-            "members_of_same_named_classes_configured_differently": 50}
+            "members_of_same_named_classes_configured_differently": 50,
+            "renders_with_members_declared_by_identical_text": 100}
 
 
 INCREMENTAL_ADDS = {
@@ -130,6 +139,8 @@ INCREMENTAL_ADDS = {
 def run_case(ctx, spec, tname):
     if tname == "idattr":
         spec = dict(spec, attrs={str(i): {"id": 100 + i, "type": "T"} for i in range(len(spec["verts"]))})
+    if tname == "sametitle":
+        spec = dict(spec, attrs={str(i): {"grp": i % 2} for i in range(len(spec["verts"]))})
     if tname == "fmtspec":
         spec = dict(spec, attrs={str(i): {"pos": [i * 2, "pq"], "w": i * 0.5} for i in range(len(spec["verts"]))})
         ctx.count("renders_with_format_specs_in_title")
@@ -185,6 +196,8 @@ def run_case(ctx, spec, tname):
             ctx.count("members_of_same_named_classes_configured_differently")
         if not v.links:
             ctx.count("isolated_members")
+    if any(k > 1 for k in exp_hdr.values()):
+        ctx.count("renders_with_members_declared_by_identical_text")
     got_hdr = collections.Counter()
     for l in lines:
         m = HDR.match(l)
@@ -305,7 +318,7 @@ def run(ctx):
             ctx.sample({"spec": spec, "tables": [t for t in TABLE_ALLOWS_OTHER if TABLE_ALLOWS_OTHER[t] or not has_other]})
     ctx.assumptions += [
         "only complete two-ended links whose class (or an ancestor) is configured in the option table",
-        "titles are unique per vertex and free of whitespace; attribute renderings do not start a line with a relation pattern",
+        "titles are free of whitespace (they need not be unique: table 'sametitle'); attribute renderings do not start a line with a relation pattern",
         "relation lines for links from a member to a non-member may be present (at most once) or absent",
     ]
 
